@@ -83,5 +83,6 @@ def replay_or(ctx, obj, fallback):
             if hasattr(ad, "replay"):
                 return ad.replay(inp)
             x = ad.free_build(inp["spec"])
-            return (K.c02_eval(ad, x) if inp["kind"] == "c02" else K.c15_eval(ad, x)) is not None
+            kw = ad.kw(ad.OPTS) if hasattr(ad, "OPTS") else {}
+            return (K.c02_eval(ad, x, kw) if inp["kind"] == "c02" else K.c15_eval(ad, x, kw)) is not None
     return fallback(ctx, obj)
